@@ -462,9 +462,20 @@ class DeferredSender (threading.Thread):
     while core.running:
 
       with self._lock:
+        # Forget connections which have gone away (their sockets are closed,
+        # and selecting on a closed socket fails)
+        for con in list(self._dataForConnection.keys()):
+          if con.disconnected:
+            del self._dataForConnection[con]
+        if len(self._dataForConnection) == 0:
+          self.sending = False
         cons = list(self._dataForConnection.keys())
 
-      rlist, wlist, elist = select.select([self._waker], cons, cons, 5)
+      try:
+        rlist, wlist, elist = select.select([self._waker], cons, cons, 5)
+      except (ValueError, OSError):
+        # A connection was closed between the check above and the select
+        continue
       if not core.running: break
 
       with self._lock:
